@@ -32,6 +32,10 @@ CHECKS = {
    text="Seeded histories of 1-5 runs on one Interpreter of a multi-mode program, each run with its own Config (stdin bytes and delivery, Vars, operands over a simulated file system, CSV/TSV modes, sandbox flags, Environ) and ending (normal, exit or run-time error in BEGIN/rule/function/for-in/END, native failure, cancellation at a drawn VM step via hook H1 or by script, pre-cancelled context, stdin read error, stdout write error, rejected configuration); every run is executed again on a newly created Interpreter in an identical simulated world and stdout, stderr, status, error, files and probe observations must agree (with ResetVars+ResetRand: all state; without: the variable-blind observations). Sampling, not proof.",
    note="Without ResetVars, FS/OFS/ORS/RS/SUBSEP/CONVFMT/OFMT/RT are treated as variables that carry over (the probe assigns defaults first). Error texts are compared (same build on both sides).",
    tech="deterministic simulation: seeded run histories with injected aborts/cancellations vs fresh-interpreter twin"),
+ "C19": dict(cat="exploration", ref="5.8",
+   text="(1) Deterministic parsing: generated resolver-stress sources (2-8 functions, chains/diamonds/recursion, unused and forwarded parameters, natives, 0-4 injected independent type errors) and repository test programs are parsed under sorted, reversed and seeded-random iteration orders of every Go map in the resolver/compiler/interpreter (scratch rewrite 'maporder'); verdict, error text and position, Program.String and disassembly must be identical. (2) 2-6 Interpreters sharing one Program run as actors that yield at every VM step (hook H1) under a seeded scheduler tape; each must equal the sequential result, and a deep structural hash of the Program must not change at any switch. (3) Secondary layer: the same executions with real goroutines in a -race build. Sampling, not proof.",
+   note="Interleaving granularity is one VM instruction; intra-instruction races are left to the -race layer, which is sound but not seed-replayable. The maporder rewrite is trusted to preserve Go semantics (its self-check runs the unedited test suite on the rewritten copy in the thorough tier).",
+   tech="deterministic simulation: seeded map-iteration orders and VM-step scheduler; Program hash invariant; race detector as secondary monitor"),
 }
 ORDER = ["C07","C08","C11","C12","C13","C14","C15","C19"]
 checks = []
